@@ -82,6 +82,36 @@ class GenRun:
         p = run([gv] + list(patterns), cwd=self.moddir, env=env, timeout=1800)
         self.gen_status = p.returncode
         self.gen_log = (p.stdout or "")[-4000:] + (p.stderr or "")[-4000:]
+        # twice more over the tree that now holds generated files (go generate is re-run while a package evolves): first with every
+        # second output removed, then with the others removed, so that each file is also produced next to existing validators
+        # of its neighbours and is also written over a longer stale version of itself.  What is translated, compiled and driven below is the output of these regenerations.  Packages whose
+        # first output does not compile (the open findings D8/D9) cannot be analysed again and are left as they are.
+        if self.gen_status == 0 and tuple(patterns) == ("./...",):
+            ok, errs = self.go_vet_build()
+            pkgs = sorted({sc["pkg"] for sc in self.corpus["scenarios"] if os.path.isdir(os.path.join(self.moddir, sc["pkg"]))} - set(errs))
+            self.regen_diffs = []
+            if pkgs and (ok or errs):
+                def snap():
+                    return {os.path.join(pk, f): open(os.path.join(self.moddir, pk, f), "rb").read()
+                            for pk in pkgs for f in os.listdir(os.path.join(self.moddir, pk)) if f.endswith("_validator.go")}
+                first = snap()
+                for phase in (1, 0):
+                    outs = sorted(os.path.join(self.moddir, pk, f) for pk in pkgs for f in os.listdir(os.path.join(self.moddir, pk)) if f.endswith("_validator.go"))
+                    for k, f in enumerate(outs):
+                        if k % 2 == phase:
+                            os.remove(f)
+                        else:
+                            # the others are overwritten in place: a longer stale version (as left by an earlier, longer source)
+                            with open(f, "a") as fh:
+                                fh.write("\n// stale tail of an earlier, longer output\nvar _ = \"stale\"\n" * 3)
+                    p = run([gv] + ["./" + pk for pk in pkgs], cwd=self.moddir, env=env, timeout=1800)
+                    if p.returncode != 0:
+                        self.gen_status = p.returncode
+                        self.gen_log = "re-run over the partly generated tree: " + (p.stdout or "")[-4000:] + (p.stderr or "")[-4000:]
+                        break
+                if self.gen_status == 0:
+                    now = snap()
+                    self.regen_diffs = [(k, first.get(k), now.get(k)) for k in sorted(set(first) | set(now)) if first.get(k) != now.get(k)]
         return True
 
     def translate(self):
